@@ -21,6 +21,7 @@ type Leaf struct {
 	Default  any    // a default value valid for the leaf (nil: none offered)
 	Nullable bool   // may be turned into [T,"null"]
 	Format   string
+	Defs     J // definitions the leaf refers to (merged into the root's $defs)
 }
 
 func cp(j J) J {
@@ -119,6 +120,12 @@ func Leaves(level int) []Leaf {
 	add("map-str", "map", J{"type": "object", "additionalProperties": J{"type": "string"}}, nil, true)
 	add("map-int-required", "map", J{"type": "object", "additionalProperties": J{"type": "integer"}, "required": A{"k1"}}, nil, true)
 	add("map-obj", "map", J{"type": "object", "additionalProperties": J{"type": "object", "properties": J{"k": J{"type": "integer"}}}}, nil, true)
+	mv := J{"MV": J{"type": "object", "properties": J{"k": J{"type": "string"}}, "required": A{"k"}}, "MS": J{"type": "string", "minLength": 2}}
+	add("map-ref-obj", "map", J{"type": "object", "additionalProperties": J{"$ref": "#/$defs/MV"}}, nil, true)
+	ls[len(ls)-1].Defs = mv
+	add("map-ref-str", "map", J{"type": "object", "additionalProperties": J{"$ref": "#/$defs/MS"}}, nil, true)
+	ls[len(ls)-1].Defs = mv
+	add("map-enum-untyped", "map", J{"type": "object", "additionalProperties": J{"enum": A{"a", "b"}}}, nil, true)
 	add("object-addl-typed", "object", J{"type": "object", "properties": J{"k": J{"type": "string"}}, "additionalProperties": J{"type": "integer"}}, nil, true)
 	add("object-addl-num", "object", J{"type": "object", "properties": J{"k": J{"type": "string"}}, "additionalProperties": J{"type": "number"}}, nil, true)
 	add("object-addl-bool", "object", J{"type": "object", "properties": J{"k": J{"type": "string"}}, "additionalProperties": J{"type": "boolean"}}, nil, true)
